@@ -24,6 +24,8 @@ import (
 	"0chain.net/smartcontract/dbs/event"
 	"0chain.net/smartcontract/faucetsc"
 	"0chain.net/smartcontract/minersc"
+	"0chain.net/smartcontract/stakepool"
+	"0chain.net/smartcontract/stakepool/spenum"
 	"0chain.net/smartcontract/storagesc"
 	"0chain.net/smartcontract/vestingsc"
 	"0chain.net/smartcontract/zcnsc"
@@ -364,6 +366,10 @@ func handle(req *request) (res *result) {
 			res.Txns[i] = txnResult{Status: -1}
 			continue
 		}
+		if strings.HasPrefix(strings.TrimSpace(line), "unit-") {
+			cur = append(cur, item{i, nil}) // a direct call of contract library code, not a transaction
+			continue
+		}
 		t, err := tb.build(line)
 		if err != nil {
 			panic(err)
@@ -373,6 +379,10 @@ func handle(req *request) (res *result) {
 	blocks = append(blocks, cur)
 	runGen := func(items []item) {
 		for _, it := range items {
+			if it.t == nil {
+				res.Txns[it.idx] = txnResult{Status: -2, Output: unitCall(req.Txns[it.idx])}
+				continue
+			}
 			t := it.t.Clone()
 			evs, err := w.Exec(t)
 			tr := txnResult{Status: t.Status, Output: t.TransactionOutput}
@@ -419,6 +429,9 @@ func handle(req *request) (res *result) {
 		b.ClientStateHash = root
 		var kept []item
 		for _, it := range items {
+			if it.t == nil {
+				continue
+			}
 			if it.idx < len(req.Verify.Skip) && req.Verify.Skip[it.idx] {
 				continue // the generator would not have put a rejected transaction into the block
 			}
@@ -445,6 +458,37 @@ func handle(req *request) (res *result) {
 	res.Root = w.Root()
 	res.Changes = w.State.GetChangeCount()
 	return res
+}
+
+// unitCall: `unit-distribute <n> <balance> <reward>` — the real stakepool.StakePool.DistributeRewards on a pool of n delegates with
+// EQUAL balances (service charge 0): the resulting pool bytes and the emitted events. With a remainder (reward not divisible)
+// the left-over units go to the first pools of GetOrderedPools.
+func unitCall(line string) string {
+	f := strings.Fields(line)
+	if f[0] != "unit-distribute" || len(f) != 4 {
+		return "bad unit call"
+	}
+	var n int
+	var bal, reward int64
+	fmt.Sscan(f[1], &n)
+	fmt.Sscan(f[2], &bal)
+	fmt.Sscan(f[3], &reward)
+	b := &block.Block{}
+	b.Round = 7
+	txn := &transaction.Transaction{}
+	txn.Hash = "verif-unit-txn"
+	balances := cstate.NewStateContext(b, nil, txn, nil, nil, nil, nil, nil, nil)
+	sp := stakepool.NewStakePool()
+	sp.Settings.DelegateWallet = "provider-wallet"
+	for i := 0; i < n; i++ {
+		id := fmt.Sprintf("delegate_%c", 'a'+i)
+		sp.Pools[id] = &stakepool.DelegatePool{Balance: currency.Coin(bal), DelegateID: id}
+	}
+	if err := sp.DistributeRewards(currency.Coin(reward), "provider-1", spenum.Miner, spenum.BlockRewardMiner, balances); err != nil {
+		return "error: " + err.Error()
+	}
+	ev, _ := json.Marshal(balances.GetEvents())
+	return string(sp.Encode()) + " events " + string(ev)
 }
 
 func workerMain() {
